@@ -41,7 +41,17 @@ def _kv(s):
 
 def parse_block(lines):
     r = Result()
+    in_bt = False
     for ln in lines:
+        if ln.startswith("X backtrace-begin"):
+            in_bt = True
+            continue
+        if ln.startswith("X backtrace-end"):
+            in_bt = False
+            continue
+        if in_bt and not ln.startswith("END "):
+            r.crash.append(ln)
+            continue
         if ln.startswith("R "):
             r.kv = _kv(ln[2:])
             r.status = r.kv.get("status")
